@@ -426,6 +426,8 @@ pub fn bufs() -> impl Strategy<Value = Vec<usize>> {
         2 => Just(Vec::new()),
         2 => vec(prop_oneof![4 => Just(1usize), 4 => 1usize..64, 4 => 64usize..70000, 4 => Just(8192usize), 1 => Just(0usize)], 1..4),
         1 => Just(vec![1usize]),
+        1 => Just(vec![usize::MAX - 1]),
+        1 => Just(vec![usize::MAX - 1, 0, 3]),
     ]
 }
 
